@@ -102,7 +102,8 @@ def gen_scenario(rng, sid, big=False, force=None):
     """one scenario on the dyadic grid; all numbers are ints in units 1/U"""
     gens = ['uniform', 'uniform', 'varh', 'varh', 'clustered', 'lattice',
             'collinear', 'coplanar', 'coincident', 'single', 'empty', 'far',
-            'sparse-multi', 'sparse-multi', 'sparse-multi', 'tie', 'varh-multi']
+            'sparse-multi', 'sparse-multi', 'sparse-multi', 'tie', 'varh-multi',
+            'empty-far']
     gen = force or rng.choice(gens)
     dim = rng.choice([1, 2, 3, 3, 2])
     if gen == 'coplanar':
@@ -120,7 +121,7 @@ def gen_scenario(rng, sid, big=False, force=None):
     ncell = rng.choice([1, 2, 3, 5, 8])        # box side in cells
     L = max(int(cell * ncell), 4)
     off = [0, 0, 0]
-    if gen == 'far' or rng.random() < 0.08:
+    if gen in ('far', 'empty-far') or rng.random() < 0.08:
         off = [rng.choice([-1, 1]) * rng.choice([10 ** 6, 10 ** 5, 12345]) * U
                for _ in range(3)]
     # coordinates of the unused dimensions stay 0 (a dim-D problem lives in
@@ -140,7 +141,7 @@ def gen_scenario(rng, sid, big=False, force=None):
         pts = []
         hs = []
         h_a = h0 if rng.random() < 0.6 else max(4, h0 // rng.choice([2, 4]))
-        if gen in ('uniform', 'far', 'empty', 'single'):
+        if gen in ('uniform', 'far', 'empty', 'empty-far', 'single'):
             pts = [pt_uniform() for _ in range(n)]
             hs = [h_a] * n
         elif gen in ('varh', 'varh-multi'):
@@ -203,7 +204,7 @@ def gen_scenario(rng, sid, big=False, force=None):
             hs = [q] * len(pts)
         if gen == 'single':
             pts, hs = pts[:1], hs[:1]
-        if gen == 'empty' and (a == narr - 1 or rng.random() < 0.4):
+        if gen in ('empty', 'empty-far') and (a == narr - 1 or rng.random() < 0.4):
             pts, hs = [], []
         arr = _empty_arr()
         for p, hh in zip(pts, hs):
@@ -245,6 +246,9 @@ def gen_scenario(rng, sid, big=False, force=None):
            'threads': rng.choice([1, 1, 2, 3, 4])}
     scn['cfgs'] = {c: _pick_knobs(rng, c, None) for c in CLASSES}
     scn['gid_mode'] = rng.choice(['default', 'default', 'unique', 'shared', 'shared3'])
+    # own stream: does not shift the scenarios of existing seeds
+    scn['ctx'] = random.Random('ctx-%s-%d' % (sid, len(scn['arrays'][0]['h']))).choice(
+        ['explicit', 'implicit', 'implicit'])
     return scn
 
 
@@ -267,6 +271,9 @@ def gen_nondyadic(rng, sid):
            'arrays': arrays, 'steps': [], 'threads': rng.choice([1, 4])}
     scn['cfgs'] = {c: _pick_knobs(rng, c, None) for c in CLASSES}
     scn['gid_mode'] = rng.choice(['default', 'default', 'unique', 'shared', 'shared3'])
+    # own stream: does not shift the scenarios of existing seeds
+    scn['ctx'] = random.Random('ctx-%s-%d' % (sid, len(scn['arrays'][0]['h']))).choice(
+        ['explicit', 'implicit', 'implicit'])
     return scn
 
 
@@ -360,7 +367,7 @@ def read_state(scn, pas):
     return st
 
 
-def state_unsafe(scn, st):
+def state_unsafe(scn, st, phantom_origin=False):
     """True when the algorithms' key tables would need unreasonable memory:
     extent / cell size above RATIO_LIMIT on some axis"""
     allh = [v for a in st for v in a['h']]
@@ -375,10 +382,17 @@ def state_unsafe(scn, st):
         vs = [v for a in st for v in a[ax]]
         # an empty array contributes 0 to the bounds (carray min/max of an
         # empty array are 0)
-        if any(len(a['h']) == 0 for a in st):
+        if phantom_origin and any(len(a['h']) == 0 for a in st):
             vs = vs + [0]
         ext = max(ext, max(vs) - min(vs))
     return ext / cs > RATIO_LIMIT
+
+
+def empty_far(scn, st):
+    """an empty array next to particles so far from the origin that bounds
+    which include the origin would be unreasonably large"""
+    return any(len(a['h']) == 0 for a in st) and not state_unsafe(scn, st) \
+        and state_unsafe(scn, st, phantom_origin=True)
 
 
 def oracle_lists(scn, st):
@@ -452,32 +466,36 @@ def construct(scn, cname, cfg, pas):
     return cls(**kw)
 
 
-def query_all(nps, pas, cached, fill_all):
+def query_all(nps, pas, cached, fill_all, implicit=False, rev=False):
     narr = len(pas)
     out = {}
     nb = UIntArray()
-    for d in range(narr):
+    pairs = [(d, s) for d in range(narr) for s in range(narr)]
+    if rev:
+        pairs.reverse()
+    for d, s in pairs:
         nd = pas[d].get_number_of_particles()
-        for s in range(narr):
-            if cached:
-                # as AccelerationEval does before it asks for neighbours; the
-                # very first cached query without it is probed separately
-                # (probe_first_cached_query)
-                nps.set_context(s, d)
-            if cached and fill_all and (d + s) % 2 == 0:
-                nps.cache[d * narr + s].find_all_neighbors()
-            ls = []
+        fill = cached and fill_all and (d + s) % 2 == 0
+        if cached and not implicit:
+            # as AccelerationEval does before it asks for neighbours
+            nps.set_context(s, d)
+        elif fill and nd:
+            # implicit: the context is what get_nearest_particles establishes
+            nps.get_nearest_particles(s, d, 0, nb)
+        if fill and (nd or not implicit):
+            nps.cache[d * narr + s].find_all_neighbors()
+        ls = []
+        for i in range(nd):
+            nps.get_nearest_particles(s, d, i, nb)
+            ls.append(nb.get_npy_array().tolist())
+        if cached:
+            # second pass: served from the cache (hits)
             for i in range(nd):
                 nps.get_nearest_particles(s, d, i, nb)
-                ls.append(nb.get_npy_array().tolist())
-            if cached:
-                # second pass: served from the cache (hits)
-                for i in range(nd):
-                    nps.get_nearest_particles(s, d, i, nb)
-                    l2 = nb.get_npy_array().tolist()
-                    if l2 != ls[i]:
-                        ls[i] = ls[i] + ['hit-differs'] + l2
-            out[(d, s)] = ls
+                l2 = nb.get_npy_array().tolist()
+                if l2 != ls[i]:
+                    ls[i] = ls[i] + ['hit-differs'] + l2
+        out[(d, s)] = ls
     return out
 
 
@@ -636,16 +654,20 @@ def run_class(scn, cname, cfg, want_states=None):
         res['cfg_changed'] = 'num_levels=1 (h ratio %g)' % hratio
     res['cfg'] = cfg
     narr = len(pas)
+    nb0 = UIntArray()
     _progress(st)
     try:
         nps = construct(scn, cname, cfg, pas)
     except Exception as e:      # noqa
         res['error'] = 'construct: %s: %s' % (type(e).__name__, e)
         res['fails'].append({'step': 0, 'mode': 'construct', 'd': 0, 's': 0, 'i': 0,
-                             'key': 'raises-%s' % type(e).__name__,
+                             'key': ('empty-array-far-offset' if empty_far(scn, st) else
+                                     'raises-%s' % type(e).__name__),
                              'got': str(e), 'want': 'a neighbour search'})
         return res
     mode = bool(cfg['cache0'])
+    implicit = scn.get('ctx') == 'implicit'
+    nq = 0
     for step in range(len(scn['steps']) + 1):
         if step > 0:
             apply_ops(scn, pas, scn['steps'][step - 1])
@@ -665,7 +687,8 @@ def run_class(scn, cname, cfg, want_states=None):
             except Exception as e:      # noqa
                 res['error'] = 'update: %s: %s' % (type(e).__name__, e)
                 res['fails'].append({'step': step, 'mode': 'update', 'd': 0, 's': 0,
-                                     'i': 0, 'key': 'raises-%s' % type(e).__name__,
+                                     'i': 0, 'key': ('empty-array-far-offset' if empty_far(scn, st)
+                                                     else 'raises-%s' % type(e).__name__),
                                      'got': str(e), 'want': 'an updated neighbour search'})
                 break
         orc = oracle_lists(scn, st)
@@ -679,7 +702,10 @@ def run_class(scn, cname, cfg, want_states=None):
         for mi, m in enumerate(modes):
             if mi > 0:
                 nps.set_use_cache(m)
-            got = canon(query_all(nps, pas, m, cfg['fill_all']))
+            # consecutive passes run over the (dst, src) pairs forwards and
+            # backwards: the first pair after an update is the last before it
+            got = canon(query_all(nps, pas, m, cfg['fill_all'], implicit, nq % 2 == 1))
+            nq += 1
             txt = lists_text(narr, got)
             nondy = not scn['unit']
             if nondy:
@@ -700,6 +726,12 @@ def run_class(scn, cname, cfg, want_states=None):
                                 (len(l) != len(set(map(str, l))))
                             key = classify(scn, cname, cfg, nps, pas, d, s, i,
                                            missing, extra)
+                            if empty_far(scn, st):
+                                key = 'empty-array-far-offset'
+                            elif m and implicit and step > 0:
+                                nps.get_nearest_particles_no_cache(s, d, i, nb0, False)
+                                if sorted(nb0.get_npy_array().tolist()) == w:
+                                    key = 'stale-context-after-update'
                             nf += 1
                             ks = res.setdefault('fail_keys', {}).setdefault(str(step), [])
                             if key not in ks:
@@ -776,6 +808,8 @@ def _run_isolated(scn, cname):
         try:
             os.close(rd)
             signal.alarm(CHILD_TIMEOUT)      # a hang becomes `signal 14`
+            import resource                  # a runaway key table becomes a crash
+            resource.setrlimit(resource.RLIMIT_AS, (8 << 30, 8 << 30))
             global PROGRESS
             with os.fdopen(wr, 'w') as fh:
                 PROGRESS = fh
@@ -792,18 +826,20 @@ def _run_isolated(scn, cname):
     with os.fdopen(rd) as fh:
         data = fh.read()
     _, status = os.waitpid(pid, 0)
-    last_state, r = None, None
+    last_state, r, nstates = None, None, 0
     for line in data.split('\n'):
         try:
             if line.startswith('S '):
                 last_state = json.loads(line[2:])
+                nstates += 1
             elif line.startswith('R '):
                 r = json.loads(line[2:])
         except ValueError:
             pass
     if os.WIFSIGNALED(status):
         return {'cname': cname, 'crash': 'signal %d' % os.WTERMSIG(status),
-                'crash_state': last_state, 'cfg': scn['cfgs'][cname]}
+                'crash_state': last_state, 'crash_nstates': nstates,
+                'cfg': scn['cfgs'][cname]}
     if r is None:
         return {'cname': cname, 'crash': 'exit status %d, no result' % status,
                 'crash_state': last_state}
@@ -1013,9 +1049,15 @@ def nondy_model_text(scn, st, ptxt):
 
 # --------------------------------------------------------------------------
 
-def crash_condition(scn, cname, st):
+def crash_condition(scn, cname, st, nstates=1):
     """class of input on which the compiled code died"""
     st = st if st is not None else scn['arrays']
+    if empty_far(scn, st):
+        return '-empty-array-far-offset'
+    if nstates > 1 and scn.get('ctx') == 'implicit':
+        r2 = _run_isolated(dict(scn, ctx='explicit'), cname)
+        if not r2.get('crash'):
+            return '-stale-context-after-update'
     if any(len(a['h']) == 0 for a in st):
         return '-with-empty-array'
     if cname == 'LinkedListNNPS' and scn['dim'] < 3 and \
@@ -1051,7 +1093,8 @@ def evaluate(scns, R, work, tag, nproc=16):
     for (sid, cname), r in sorted(results.items()):
         if r.get('crash'):
             scn = by_sid[sid]
-            key = 'C01:%s:crash%s' % (cname, crash_condition(scn, cname, r.get('crash_state')))
+            key = 'C01:%s:crash%s' % (cname, crash_condition(scn, cname, r.get('crash_state'),
+                                                            r.get('crash_nstates', 1)))
             R.count('fail:' + key)
             if R.d['distribution']['fail:' + key] <= 3:
                 R.prop_fail(key, {'scenario': scn, 'cls': cname, 'cfg': scn['cfgs'][cname]},
@@ -1185,12 +1228,28 @@ def corpus():
     out.append(dict(base, sid='corpus-empty', arrays=[
         {'x': [0, 512, 1024], 'y': [0, 0, 512], 'z': [0, 0, 0], 'h': [256, 256, 256]},
         _empty_arr()]))
+    # empty array + cloud far from the origin
+    F = 10 ** 6 * U
+    out.append(dict(base, sid='corpus-empty-far', dim=3, arrays=[
+        {'x': [F, F + 512, F + 1024], 'y': [F, F, F + 512], 'z': [F, F + 100, F],
+         'h': [256, 256, 256]}, _empty_arr()]))
+    # cached query repeated after update() without a new set_context
+    g = random.Random(7)
+    out.append(dict(base, sid='corpus-stale-ctx', dim=3, ctx='implicit', arrays=[
+        {'x': [g.randrange(0, 2048) for _ in range(40)], 'y': [g.randrange(0, 2048) for _ in range(40)],
+         'z': [g.randrange(0, 2048) for _ in range(40)], 'h': [256] * 40}],
+        steps=[[{'op': 'add', 'a': 0, 'x': [g.randrange(0, 2048) for _ in range(400)],
+                 'y': [g.randrange(0, 2048) for _ in range(400)],
+                 'z': [g.randrange(0, 2048) for _ in range(400)], 'h': [128] * 400}]]))
     rng = random.Random(20260925)
     for s in out:
         s['cfgs'] = {c: _pick_knobs(rng, c, None) for c in CLASSES}
     # pin the configurations the findings are about
     out[0]['cfgs']['ExtendedZOrderNNPS']['knobs'] = {'H': 3, 'asymmetric': True}
     out[1]['cfgs']['ExtendedZOrderNNPS']['knobs'] = {'H': 3, 'asymmetric': False}
+    for c in CLASSES:
+        # cache off first: step 1 then starts with the cached pass
+        out[-1]['cfgs'][c]['cache0'] = False
     return out
 
 
